@@ -257,7 +257,11 @@ class S(object):
             return True
         return s._cmp(o, lambda a, b: a != b)
 
-    __hash__ = None
+    def __hash__(s):
+        # consistent with python numbers for constants (S(1.5) is a valid dict key equal to 1.5)
+        if s.e.op == "const":
+            return hash(s.e.args[0])
+        return id(s.e)
 
     def __bool__(s):
         return bool(s != 0)
@@ -344,6 +348,25 @@ class S(object):
             return repr(s)
 
 
+class SArr(np.ndarray):
+    """object ndarray whose .astype(float) does not force concretisation"""
+
+    def astype(self, dtype, *a, **k):
+        try:
+            kind = np.dtype(dtype).kind
+        except TypeError:
+            kind = "O"
+        if self.dtype == object and kind in "fc":
+            return self.copy()
+        return np.ndarray.astype(self, dtype, *a, **k)
+
+
+def as_sarr(a):
+    if isinstance(a, np.ndarray) and a.dtype == object and not isinstance(a, SArr):
+        return a.view(SArr)
+    return a
+
+
 def sv(name, positive=False, nonneg=False):
     return S(var(name, positive=positive, nonneg=nonneg))
 
@@ -358,7 +381,7 @@ EPS = S(var("EPS", nonneg=True))
 
 def sarr(name, shape, positive=False, nonneg=False):
     """object array of fresh symbolic variables name_i_j..."""
-    a = np.empty(shape, dtype=object)
+    a = np.empty(shape, dtype=object).view(SArr)
     if shape == ():
         a[()] = sv(name, positive, nonneg)
         return a
@@ -368,7 +391,7 @@ def sarr(name, shape, positive=False, nonneg=False):
 
 
 def szeros(shape):
-    a = np.empty(shape, dtype=object)
+    a = np.empty(shape, dtype=object).view(SArr)
     a[...] = S(ZERO)
     return a
 
